@@ -7,6 +7,7 @@ import (
 	"strings"
 	"time"
 
+	"github.com/scrapli/scrapligo/driver/opoptions"
 	"github.com/scrapli/scrapligo/driver/options"
 	"github.com/scrapli/scrapligo/response"
 	"github.com/scrapli/scrapligo/util"
@@ -276,9 +277,21 @@ func c02DrvOne(s *c02Drv, segIdx int) verdict {
 		extra = append(extra, options.WithPromptSearchDepth(48))
 	}
 
+	// every third session is the second one on its driver: in the first, a call timed out and its reply came late (it is filed,
+	// nobody fetches it); close, open again. What the call under observation returns is the reply to ITS request.
+	earlier := s.ID%3 == 0
+	nreq, lastID := 0, 0
+
 	sess, err := newNcSession(ncConfig{
 		adv10: true, adv11: true, preferred: s.Version, echo: s.Echo, seg: sg.seg, seed: int64(s.ID), timeout: 1500 * time.Millisecond, extra: extra,
 		reply: func(_ *simdev.NCServer, r simdev.NCRequest) []byte {
+			nreq++
+			lastID = r.MsgID
+
+			if earlier && nreq == 1 {
+				return nil // answered late, see below
+			}
+
 			pay, ends := concPayloadU(s.Payload, r.MsgID, s.ID)
 			if s.Version == "1.0" {
 				reply = append([]byte(pay), []byte("]]>]]>")...)
@@ -329,13 +342,53 @@ func c02DrvOne(s *c02Drv, segIdx int) verdict {
 		return v
 	}
 
+	if earlier {
+		_, e1 := sess.d.Get("", opoptions.WithTimeoutOps(150*time.Millisecond))
+
+		sess.pipe.Lock()
+		id1 := lastID
+		sess.pipe.Unlock()
+
+		late := []byte(fmt.Sprintf(`<rpc-reply xmlns="urn:ietf:params:xml:ns:netconf:base:1.0" message-id="%d"><late-reply-of-the-first-session/></rpc-reply>`, id1))
+		if s.Version == "1.1" {
+			late = simdev.Frame11(late, []int{len(late)})
+		} else {
+			late = append(late, []byte("]]>]]>")...)
+		}
+
+		sess.pipe.Inject(late)
+		sess.pipe.WaitDrained(time.Second)
+		time.Sleep(5 * time.Millisecond)
+
+		var e2 error
+
+		finR, panR := withWatchdog(8*time.Second, func() {
+			_ = sess.d.Close()
+			e2 = sess.d.Open()
+		})
+		if e1 == nil || !finR || panR != nil || e2 != nil {
+			v.OK, v.Sig, v.Detail = false, "TOOL", fmt.Sprintf("the earlier session: first call %v, close/open returned=%v panic=%v err=%v", e1, finR, panR, e2)
+
+			return v
+		}
+	}
+
 	var r *response.NetconfResponse
 
 	fin, pan := withWatchdog(20*time.Second, func() { r, err = sess.d.Get("") })
-	want, _ := concPayloadU(s.Result, 101, s.ID)
+
+	sess.pipe.Lock()
+	reqID := lastID
+	sess.pipe.Unlock()
+
+	if !earlier {
+		reqID = 101
+	}
+
+	want, _ := concPayloadU(s.Result, reqID, s.ID)
 	if tail != "" {
 		// the result is the payload without surrounding white space; what was trailing before is now in the middle
-		full, _ := concPayloadU(s.Payload, 101, s.ID)
+		full, _ := concPayloadU(s.Payload, reqID, s.ID)
 		want += full[len(strings.TrimRight(full, " \t\r\n")):] + tail
 	}
 
